@@ -43,6 +43,7 @@ namespace
     // finest level
     std::vector<long long> keys;
     std::vector<double> ax, ax3, diag, lump, rhs, sol;
+    std::vector<std::pair<std::pair<long long, long long>, double>> m1;   // type-1 matrix entries by (row key, column key)
     double dot = 0, norm2 = 0, gmax = 0, gmin = 0, gsum = 0;
     int status = -1; Index iters = 0; double def_init = 0, def_final = 0, h0 = 0, h1 = 0;
     int cmax = 0, cmin = 0;
@@ -210,6 +211,12 @@ namespace
       the_system_level.matrix_sys.lump_rows(gr, true);
       for(Index d = 0; d < nd; ++d) out.lump.push_back(gr.local()(d));
 
+      {
+        // SynchMatrix: four phases of equal-tag messages between the same pairs (correct only because of non-overtaking)
+        auto m1 = the_system_level.matrix_sys.convert_to_1();
+        const Index* rp = m1.row_ptr(); const Index* ci = m1.col_ind(); const double* mv = m1.val();
+        for(Index r = 0; r < m1.rows(); ++r) for(Index k = rp[r]; k < rp[r + 1]; ++k) out.m1.push_back({{out.keys[r], out.keys[ci[k]]}, mv[k]});
+      }
       GlobalSystemVector vec_sol = the_system_level.matrix_sys.create_vector_r();
       GlobalSystemVector vec_rhs = the_system_level.matrix_sys.create_vector_r();
       vec_sol.format(); vec_rhs.format();
@@ -369,6 +376,18 @@ namespace
           if(!close(r.rhs[d], B.rhs[j], 1e-12, s_rhs)) sim::fail("RHS", "assembled+synchronised right-hand side differs from the one-process vector");
           ++CNT.sol_entries;
           if(!close(r.sol[d], B.sol[j], 1e-7, s_sol)) sim::fail("SOLUTION", "discrete solution differs from the one-process solution: " + std::to_string(r.sol[d]) + " vs " + std::to_string(B.sol[j]));
+        }
+      }
+      {
+        std::map<std::pair<long long, long long>, double> bm;
+        double smax = 0;
+        for(const auto& e : B.m1) { bm[e.first] = e.second; smax = std::max(smax, std::abs(e.second)); }
+        for(const RankOut& r : A) for(const auto& e : r.m1)
+        {
+          auto it = bm.find(e.first);
+          if(it == bm.end()) sim::fail("MATRIX_TYPE1", "convert_to_1(): entry of the local pattern does not exist in the one-process matrix");
+          ++CNT.matvec_entries;
+          if(!close(e.second, it->second, 1e-12, smax)) sim::fail("MATRIX_TYPE1", "convert_to_1(): type-1 matrix entry " + std::to_string(e.second) + " differs from the entry of the undecomposed matrix " + std::to_string(it->second));
         }
       }
       if(seen.size() != B.keys.size()) sim::fail("DOF_COVER", "the patches hold " + std::to_string(seen.size()) + " of " + std::to_string(B.keys.size()) + " global DOFs");
